@@ -34,6 +34,14 @@ CLAIMED = {
          'Id uniqueness, callback-only-on-matching-ack, foreign/duplicate ACK inert, none-after-disconnect, call() result as theorems; '
          'adversarial ACK streams on both families and the model.',
          TB + 'call(): the wait primitive is scripted.', '§5 C06'),
+ 'C08': ('proof', 'Lean 4 simulation/invariant theorems over a client model and a server-view spec; correspondence with Client/AsyncClient over a scripted engine.io client',
+         'connect_sends, wait_all (incl. failed-connect-clean), mirror, bad_namespace, connect/disconnect-once, reset as theorems over arbitrary '
+         'histories (the connect-window regions are known findings with decide-witnesses); histories incl. loss mid-binary-packet run on both client families and the model.',
+         TB + 'engine.io client contract (state during notifications); messages delivered inline.', '§5 C08'),
+ 'C09': ('proof', 'Lean 4 theorems over the client model; correspondence with Client/AsyncClient',
+         'invoke_once, unconditional ACK, id uniqueness per namespace, callback at most once / only for the matching ACK, unknown ACK inert '
+         '(id 0 included), call() result as theorems; adversarial EVENT/ACK streams on both client families and the model.',
+         TB + 'engine.io client contract.', '§5 C09'),
  'C10': ('proof', 'Lean 4 theorems over an exact-rational model of the reconnection loop and its start decision; correspondence with Client/AsyncClient over scripted engine.io outcomes and wait primitives',
          'Back-off formula, attempt bound, first-success stop, abort, same-parameters and start-decision theorems for unbounded efforts; every '
          'failure pattern up to length 6 and the full parameter grid executed on both client families, waits observed through the wait primitives.',
